@@ -1164,6 +1164,65 @@ theorem C14_ccopy_correct (c : Conv) {t1 t2 : Tag} (s : View t1) (d : View t2) (
   rw [show ((Xf.cc t2.fmt c).tag t1).fmt = _ from hfmt]
   exact hid
 
+/-! ### recreate carries the alignment: row layout after any sequence of recreate calls -/
+
+/-- after ANY list of `recreate(w, h, alignment)` calls the run-time typed image holds the same alternative, and its
+    (dimensions, alignment, row stride) are those of the concrete image driven by the same calls -/
+theorem C14_recreate_sequence (f : Fmt) (l : Lay) (calls : List (Nat × Nat × Nat)) :
+    calls.foldl AnyLay.recreate ⟨f, l⟩ = ⟨f, calls.foldl (Lay.recreate f) l⟩ := by
+  induction calls generalizing l with
+  | nil => rfl
+  | cons c cs ih => simp only [List.foldl]; exact ih _
+
+private theorem recreate_make (f : Fmt) (l : Lay) (c : Nat × Nat × Nat) (hwf : l = Lay.make f l.w l.h l.align) :
+    Lay.recreate f l c = Lay.make f c.1 c.2.1 c.2.2 := by
+  unfold Lay.recreate
+  split
+  · rename_i h; obtain ⟨h1, h2, h3⟩ := h; rw [← h1, ← h2, ← h3]; exact hwf
+  · rfl
+
+/-- the layout after a non-empty sequence of recreate calls is the layout of an image CONSTRUCTED with the last call's
+    dimensions and alignment, whatever the history: in particular `recreate` with unchanged dimensions but a new alignment
+    re-lays the rows out (stride of the new alignment) — for the concrete image and, by `C14_recreate_sequence`, for the
+    any_image holding it -/
+theorem C14_recreate_layout_last_call (f : Fmt) (l : Lay) (hwf : l = Lay.make f l.w l.h l.align)
+    (calls : List (Nat × Nat × Nat)) (hne : calls ≠ []) :
+    (calls.foldl AnyLay.recreate ⟨f, l⟩).2 = Lay.make f (calls.getLast hne).1 (calls.getLast hne).2.1 (calls.getLast hne).2.2 ∧
+    (calls.foldl AnyLay.recreate ⟨f, l⟩).2.stride = rowUnits f (calls.getLast hne).1 (calls.getLast hne).2.2 ∧
+    (calls.foldl AnyLay.recreate ⟨f, l⟩).1 = f := by
+  rw [C14_recreate_sequence]
+  have key : calls.foldl (Lay.recreate f) l = Lay.make f (calls.getLast hne).1 (calls.getLast hne).2.1 (calls.getLast hne).2.2 := by
+    induction calls generalizing l with
+    | nil => exact absurd rfl hne
+    | cons c cs ih =>
+      simp only [List.foldl]
+      have h1 := recreate_make f l c hwf
+      by_cases hcs : cs = []
+      · subst hcs; simpa using h1
+      · rw [List.getLast_cons hcs]
+        exact ih (Lay.recreate f l c) (by rw [h1]; rfl) hcs
+  exact ⟨key, by rw [key]; rfl, rfl⟩
+
+/-- rows of an aligned layout are multiples of the alignment: the stride `align(v, a)` is divisible by `a` -/
+theorem C14_align_up_divisible (v a : Nat) (ha : 0 < a) : alignUp v a % a = 0 ∧ v ≤ alignUp v a ∧ alignUp v a < v + a := by
+  unfold alignUp
+  have hr : v % a < a := Nat.mod_lt v ha
+  by_cases h0 : v % a = 0
+  · simp [h0, ha]
+  · have h1 : (a - v % a) % a = a - v % a := Nat.mod_eq_of_lt (by omega)
+    rw [h1]
+    refine ⟨?_, by omega, by omega⟩
+    have hd := Nat.div_add_mod v a
+    have : v + (a - v % a) = a * (v / a + 1) := by rw [Nat.mul_add, Nat.mul_one]; omega
+    rw [this]; exact Nat.mul_mod_right _ _
+
+/-- the case a dropped alignment would get wrong: gray8 5 x 3 built packed (alignment 0, stride 5), `recreate(5, 3, 8)`
+    (same dimensions) must give stride 8; rgb8 5 x 3, 0 -> 16: 15 -> 16 -/
+theorem C14_recreate_same_dims_new_alignment :
+    (AnyLay.recreate ⟨g8, Lay.make g8 5 3 0⟩ (5, 3, 8)).2.stride = 8 ∧ (Lay.make g8 5 3 0).stride = 5 ∧
+    (AnyLay.recreate ⟨rgb8, Lay.make rgb8 5 3 0⟩ (5, 3, 16)).2.stride = 16 ∧ (Lay.make rgb8 5 3 0).stride = 15 := by
+  decide
+
 /-! ### concrete instances of the hypotheses used above (the theorems are not vacuous) -/
 
 section Examples
@@ -1205,6 +1264,9 @@ example : compatible rgb8 bgr8 = true ∧ exImg.w = exImg2.w ∧ exImg.h = exImg
 example : rgba8 ∈ L7 ∧ atC (L7.map Fmt.nc) 4 = 4 := by decide
 -- C14_equality_deep / C14_ccopy_correct hypotheses: a pixel value of the right length; an incompatible pair
 example : [1, 2, 3].length = rgb8.nc ∧ compatible (Tag.ofFmt rgb8).fmt (Tag.ofFmt g8).fmt = false ∧ exImg.view.adapt = [] := by decide
+-- C14_recreate_layout_last_call: a constructed layout is well formed; a non-empty call list
+example : Lay.make rgb8 5 3 4 = Lay.make rgb8 (Lay.make rgb8 5 3 4).w (Lay.make rgb8 5 3 4).h (Lay.make rgb8 5 3 4).align ∧
+    [(5, 3, 16), (2, 2, 0)] ≠ ([] : List (Nat × Nat × Nat)) := by decide
 end Examples
 
 end GilVerif.Props.C14
